@@ -21,6 +21,12 @@ PHASES = ["open", "parse", "rtxopen", "exec", "close", "done"]
 SIG_EOPEN = "oom:sio-open-reports-EOPEN"
 SIG_ARRFREE = "oom:arr-insert-grow-failure-frees-callers-value"
 SIG_RETVAL = "oom:fnc-setretval-null-value"
+SIG_GLOB = "oom:uglob-unwind"
+SIG_XARGV = "oom:xargv-index-leak"
+SIG_INCPST = "oom:incpst-assign-failure-keeps-values"
+# functions whose unwind table does not pass the law on the unchanged tree because of a defect (-> signature)
+WIDE_DEFECT_SIGS = {"gem-glob.c:hawk_gem_uglob": SIG_GLOB, "gem-glob.c:hawk_gem_bglob": SIG_GLOB, "run.c:eval_incpst": SIG_INCPST,
+                    "parse.c:parse_primary_xarg": SIG_XARGV}
 
 
 def load_extractor():
@@ -29,6 +35,77 @@ def load_extractor():
     m = importlib.util.module_from_spec(spec)
     spec.loader.exec_module(m)
     return m
+
+
+def load_wide():
+    p = os.path.join(C.VERIF, "extract", "unwind_wide.py")
+    spec = importlib.util.spec_from_file_location("c10_unwind_wide", p)
+    m = importlib.util.module_from_spec(spec)
+    spec.loader.exec_module(m)
+    return m
+
+
+def translate_wide(ctx):
+    """every function of lib/*.c with two or more acquisition sites -> Gen/UnwindWide.lean; returns (summary, problems)
+    problems: [(text, sig|None)] - a function that the baseline (extract/unwind_wide.expected) lists as established and that
+    no longer translates or no longer passes the law, or a new law violation that the baseline does not know"""
+    uw = load_wide()
+    est, notest, unh, nfun = uw.scan(C.REPO)
+    C.write_if_changed(os.path.join(C.LEAN, "HawkModel", "Gen", "UnwindWide.lean"), uw.emit(est, notest, unh))
+    summ = uw.summary(est, notest, unh, nfun)
+    probs = []
+    def readlist(fn):
+        try:
+            return [l.split("#")[0].strip() for l in open(os.path.join(C.VERIF, "extract", fn)) if l.split("#")[0].strip()]
+        except OSError:
+            return None
+    exp = readlist("unwind_wide.expected")
+    known_bad = set(readlist("unwind_wide.notestablished") or [])
+    now = set(summ["established_wide"])
+    why = {d["fn"]: d["why"] for d in summ["not_established"]}
+    why.update({d["fn"]: "the translator cannot express it any more: " + d["reason"] for d in summ["unhandled"]})
+    if exp is None:
+        probs.append(("extract/unwind_wide.expected is missing", None))
+    else:
+        for fn in exp:
+            if fn not in now:
+                probs.append(("%s: its unwind table passed the law (every failure exit releases exactly what is held, once) on the baseline tree and does not now: %s"
+                              % (fn, why.get(fn, "the function is gone or has fewer than two acquisition sites")), WIDE_DEFECT_SIGS.get(fn)))
+    for d in summ["not_established"]:
+        if d["fn"] not in known_bad and (exp is None or d["fn"] not in exp):
+            probs.append(("%s: the extracted unwind table violates the law: %s" % (d["fn"], d["why"]), WIDE_DEFECT_SIGS.get(d["fn"])))
+    return summ, probs
+
+
+def wide_site_coverage(summ, lines):
+    """which steps of the wide tables had a refusal injected inside them: a step (function f, callee g) is reached when some
+    injected failure's call chain contains g (or is directly in f for a plain allocator request) below f"""
+    chains = set()
+    for d in lines:
+        if d.get("hit") and d.get("site", "-") not in ("-", "?"):
+            chains.add(tuple(d["site"].split("<")))
+    below = {}
+    for ch in chains:
+        for i, f in enumerate(ch):
+            below.setdefault(f, set()).update(ch[:i]); below[f].add("prim" if i == 0 else ch[i - 1])
+    total = reached = 0
+    fn_reached = []
+    fn_unreached = []
+    for fn, callees in summ.get("steps_by_function", {}).items():
+        f = fn.split(":")[1]
+        got = below.get(f)
+        for g in callees:
+            total += 1
+            if SITE_SKIP.match(g):
+                g = "prim"      # allocator wrappers are dropped from the call chains
+            alt = {g}
+            if g.startswith("ecs_"):
+                alt = {"hawk_becs_" + g[4:], "hawk_uecs_" + g[4:]}
+            if got is not None and (alt & got):
+                reached += 1
+        (fn_reached if got is not None else fn_unreached).append(fn)
+    return dict(steps_named=total, steps_reached=reached, functions=len(fn_reached) + len(fn_unreached), functions_reached=len(fn_reached),
+                functions_never_failed_in=sorted(fn_unreached))
 
 
 def translate(ctx):
@@ -228,7 +305,7 @@ def judge(d):
     if badfree:
         return ("badfree", None, "a pointer that is not an outstanding block was freed (%d times)" % d["badfree"])
     if leak:
-        return ("leak", None, "%d block(s) still allocated after hawk_close (%s)" % (d["live"], d.get("leak", "")))
+        return ("leak", SIG_XARGV if site.split("<")[0] == "parse_primary_xarg" else None, "%d block(s) still allocated after hawk_close (%s)" % (d["live"], d.get("leak", "")))
     if oc in ("ENOMEM", "OK_SAME", "NOHIT", "SOFTERR"):
         return None
     if oc == "OK_DIFF" or oc == "NOHIT_DIFF":
@@ -531,9 +608,10 @@ def api_part(ctx, exe):
                 again = [x for x in api_lines(out2) if x.get("k") == k]
                 if again and judge_api(again[-1]) is None:
                     continue
+                asig = SIG_GLOB if d["api"] == "glob" else None
                 ctx.problem("impl", "API case %s, %s mode, request %s refused: %s" % (d["api"], mode, k, v),
                             "kind: api\ncase: %s\nmode: %s\nk: %s\nline: %s\n# replay: oom_h api %s %s %s  (harness/oom_api.h, function c_%s)\n%s"
-                            % (d["api"], mode, k, d["raw"], d["api"], mode, kk, d["api"], err2[-1500:]), found_input=True)
+                            % (d["api"], mode, k, d["raw"], d["api"], mode, kk, d["api"], err2[-1500:]), found_input=True, sig=asig)
     return evals, refused
 
 
@@ -685,7 +763,14 @@ def run(ctx):
     if not ok_tr:
         ctx.problem("corr", "extract/unwind.py refuses the constructor sources (fails closed): %s" % tr,
                     "translator error:\n%s\n" % tr, found_input=False)
+    try:
+        wide, wide_probs = translate_wide(ctx)
+    except Exception as e:   # the wide pass must never take the check down silently
+        wide, wide_probs = {}, [("extract/unwind_wide.py failed: %s: %s" % (type(e).__name__, str(e)[:300]), None)]
     proof = C.prove(ctx, "HawkModel.Props.C10", leanchecker=(ctx.tier == "thorough"))
+    proofs = [proof]
+    if os.path.exists(os.path.join(C.LEAN, "HawkModel", "Props", "C10b.lean")):
+        proofs.append(C.prove(ctx, "HawkModel.Props.C10b", leanchecker=(ctx.tier == "thorough")))
     libdir = C.build_libhawk(ctx)
     exe = C.cc_harness(ctx, os.path.join(C.VERIF, "harness", "oom_h.c"), link_lib=libdir)
     cdir, progs = corpus_programs(ctx)
@@ -812,6 +897,17 @@ def run(ctx):
     if problems_corr and not any(p["found_input"] and not p["sig"] for p in ctx.problems):
         for w in problems_corr[:3]:
             ctx.problem("corr", w, "correspondence difference (no property violation found on the real code):\n" + w + "\n", found_input=False)
+    for (what, wsig) in wide_probs[:4]:
+        ctx.problem("corr", "unwind table: " + what, "unwind-table law violation found by extract/unwind_wide.py (python port of Table.wf; Gen/UnwindWide.lean lists the function under notEstablished):\n%s\n"
+                    "# replay: python3 extract/unwind_wide.py --repo <tree> (prints NOT-ESTABLISHED lines)\n" % what, found_input=False, sig=wsig)
+    if wide:
+        all_lines = [d for m_ in by_prog.values() for ls in m_.values() for d in ls]
+        ctx.coverage["wide_tables"] = dict(functions_scanned=wide["functions_scanned"], multi_acquisition_functions=wide["multi_acquisition_functions"],
+                                           established=wide["established"], established_wide=wide["established_wide"], established_narrow=wide["established_narrow"],
+                                           tables=wide["tables"], paths=wide["paths"], steps=wide["steps"],
+                                           not_established=wide["not_established"], unhandled=wide["unhandled"], unhandled_reasons=wide["unhandled_reasons"],
+                                           assumed_inert_callees=len(wide["assumed_inert"]), trusted=wide["trusted"])
+        ctx.coverage["wide_site_coverage"] = wide_site_coverage(wide, all_lines)
     ctx.coverage["soft_io_errors_seen_by_script"] = soft
     ctx.coverage["outcome_distribution"] = dict(sorted(dist.items()))
     ctx.coverage["programs"] = order
@@ -819,7 +915,7 @@ def run(ctx):
     samples = sorted(sites)[:6]
     for p in order:
         shutil.rmtree(wds[p], ignore_errors=True)
-    return C.finish(ctx, [proof], evaluations, len(sites),
+    return C.finish(ctx, proofs, evaluations, len(sites),
                     "cases = (program, request index k, mode) for %d corpus programs x {fail exactly the k-th request, fail every request from the k-th on} over open/parse/rtx_open/exec/close "
                     "(quick: k<200 for the first four programs and the r*/e* families + every 3rd (`one`) / every 8th (`from`) at a seeded offset + the last 8, and every k of the rtx_open+exec phases of the r*/e* program families; thorough: every k), + constructor probes (hawk_init, hawk_open, hawk_openstdwithmmgr, every k, both modes) "
                     "+ ecs op streams (exhaustive pairs + random, scripted allocator) + `hawk -m N` sweep (geometric 1 KiB..2 MiB + every size around the smallest working one); "
@@ -827,6 +923,11 @@ def run(ctx):
                     "distinct_nontrivial = distinct allocation call chains (innermost 5 hawk frames) at which a refusal was actually injected" % len(order),
                     samples, extra_cov=dict(ecs_ops=ne, ecs_refusals=ntriv_ecs),
                     trusted=["constructor bodies -> tables by extract/unwind.py (fails closed; trusts its ALLOC/RELEASE/INERT/LEAF/OPAQUE name lists, printed in Gen/Unwind.lean `trusted`)",
+                             "every lib/*.c function with >= 2 acquisition sites -> one table per acyclic path by extract/unwind_wide.py (loops: one or no iteration; trusts name catalogues for "
+                             "allocators/constructors/releases, assumes every other callee neither keeps nor frees a tracked object; coverage N of M and every unhandled function by name in coverage.wide_tables; "
+                             "baseline extract/unwind_wide.expected: a function that passed the law and no longer does is reported)",
+                             "error-number plumbing gem->rtx->hawk, nested retry and the integer chunk cache modelled by hand in HawkModel/OomRetry.lean (theorems in Props/C10b; tied to the code only through the "
+                             "observable effect: ENOMEM on the failing API call in the fault enumeration)",
                              "gc_calloc_val/makemapval and ecs-imp.h modelled by hand in HawkModel/Oom.lean (ecs validated line by line against hawk_becs_*; gc retry only through its observable effect)",
                              "the individual `if (!p)` branches outside the extracted constructors are NOT modelled: they are enumerated by fault injection only"],
                     assumptions=["HAWK_TOLERANT is switched off for the enumeration (with it a failing print/printf yields -1 by design)",
